@@ -153,3 +153,59 @@ fn lemma_reminder_is_zero_short() {
     vcover!(bits(&m, 1, 5) == 11, "a DF11");
     vassert!(reminder(&m) == 0, "lemma: reminder() is not the always-zero filter the harnesses assume");
 }
+
+// @harness props=C02 tier=thorough cap=5400 mem=30
+// TEXT LEVEL, short lines: every line of 15 ASCII bytes through the real `clean_squitter`: it yields
+// digits iff exactly 14 of the bytes are hexadecimal digits, and then those digits in order (either
+// letter case, any single decoration byte at any position)
+#[cfg_attr(kani, kani::proof)]
+#[cfg_attr(kani, kani::unwind(17))]
+#[cfg_attr(verif_replay, test)]
+fn c02_text_15_bytes() {
+    let mut b = [0u8; 15];
+    let mut i = 0;
+    while i < 15 {
+        b[i] = any_u8();
+        assume(b[i] < 128);
+        i += 1;
+    }
+    let s = unsafe { std::str::from_utf8_unchecked(&b) };
+    let got = clean_squitter(s);
+    // reference: hex digits in order
+    let mut want = [0u32; 15];
+    let mut n = 0;
+    let mut i = 0;
+    while i < 15 {
+        let c = b[i];
+        let d = if c >= b'0' && c <= b'9' {
+            Some((c - b'0') as u32)
+        } else if c >= b'a' && c <= b'f' {
+            Some((c - b'a') as u32 + 10)
+        } else if c >= b'A' && c <= b'F' {
+            Some((c - b'A') as u32 + 10)
+        } else {
+            None
+        };
+        if let Some(d) = d {
+            want[n] = d;
+            n += 1;
+        }
+        i += 1;
+    }
+    vcover!(n == 14, "a line with exactly 14 digits and one decoration byte");
+    vcover!(n == 15, "15 digits");
+    vcover!(n == 13, "13 digits");
+    match got {
+        Some(v) => {
+            vassert!(n == 14 && v.len() == 14, "C02: a 15-byte line is taken as a frame although it does not hold exactly 14 hex digits");
+            let mut k = 0;
+            while k < 14 {
+                vassert!(v[k] == want[k], "C02: the frame is not the line's hex digits in order");
+                k += 1;
+            }
+        }
+        None => {
+            vassert!(n != 14, "C02: a line holding exactly 14 hex digits is not taken as a frame");
+        }
+    }
+}
